@@ -608,7 +608,12 @@ def check_g7(ctx, rep):
                 okrow = (yv[0] == "field" and yv[1].endswith("minY") and yv[2][0] == "index" and pretty(yv[2][2]) == row) or \
                         (row == "LegalizerBase::closestRow(%s)" % yp) or \
                         (yv[0] == "call" and yv[1].endswith("rowY") and pretty(yv[3]) == row)
-                if okrow:
+                if row == "LegalizerBase::closestRow(%s)" % yp:
+                    # the row is looked up again from the y alone: closestRow answers the first (left-most) segment of that y, which is
+                    # the segment the cell sits in only if all segments of one y share an orientation (finding F-C04b)
+                    rep.violation("G7", x, owner, what, "the row is identified by its y alone (%s): of several row segments at that y the left-most one "
+                                  "decides the orientation, whichever segment holds the cell" % row, key="%s|row identified by y alone" % owner.short)
+                elif okrow:
                     rep.holds("G7", x, owner, what, "row %s is the row whose y (%s) is stored" % (row, yp))
                 else:
                     rep.violation("G7", x, owner, what, "orientation comes from row %s but the stored y is %s" % (row, yp),
